@@ -338,6 +338,10 @@ class Engine:
             self.oblige(st, 'no KeyError', self.mem(base, k), e.lineno)
             return Sym(base.t.val, Select(base.t.get(base, 'val').term, k.term))
         if isinstance(base.t, TSeq) and k.t is TInt:
+            if isinstance(e.slice, ast.UnaryOp) and isinstance(e.slice.op, ast.USub) and isinstance(e.slice.operand, ast.Constant) and isinstance(e.slice.operand.value, int):
+                pos = Length(base.term) - e.slice.operand.value          # seq[-c]: counted from the end
+                self.oblige(st, 'no IndexError (index from the end)', pos >= 0, e.lineno)
+                return Sym(base.t.elem, base.term[pos])
             self.oblige(st, 'no IndexError', And(k.term >= 0, k.term < Length(base.term)), e.lineno)
             return Sym(base.t.elem, base.term[k.term])
         if is_tuple(base.t) and isinstance(e.slice, ast.Constant):
@@ -445,8 +449,10 @@ class Engine:
                 return self.apply_contract(self.w.contracts['fn.' + n], None, None, args, st, e.lineno)
             raise Unsupported(f'call of {n} (line {e.lineno})')
         if isinstance(f, ast.Attribute):
-            if f.attr in self.w.ctors and isinstance(f.value, ast.Name) and f.value.id not in st.env:
-                return self.w.ctors[f.attr](self, e, st)                      # module.Class()
+            root = f.value
+            while isinstance(root, ast.Attribute): root = root.value
+            if f.attr in self.w.ctors and isinstance(root, ast.Name) and root.id not in st.env:
+                return self.w.ctors[f.attr](self, e, st)                      # module.Class() / package.module.Class()
             if isinstance(f.value, ast.Call) and isinstance(f.value.func, ast.Name) and f.value.func.id == 'super' and not f.value.args:
                 me = self.ev(ast.Name(id='self', ctx=ast.Load(), lineno=e.lineno, col_offset=0), st)
                 sup = getattr(self.w, 'super_of', {}).get(me.t.name)
@@ -843,6 +849,17 @@ class Engine:
             finish(self.ex_block(s.body, it, path), lambda e_st: INV(e_st, None))
             ex = exit_state(lambda x: INV(x, None), extra=lambda x: Not(self.truthy(self.ev(s.test, x))))
             results.append((ex, 'normal')); return results
+        if isinstance(s.iter, ast.Call) and isinstance(s.iter.func, ast.Name) and s.iter.func.id == 'range' and len(s.iter.args) in (1, 2) and not s.iter.keywords:
+            # for i in range(n) / range(a, b): the counted loop; the invariant is given the number of the next iteration (a at entry, max(a, b) at exit)
+            lo = Sym(TInt, IntVal(0)) if len(s.iter.args) == 1 else self.ev(s.iter.args[0], st); hi = self.ev(s.iter.args[-1], st)
+            if lo.t is not TInt or hi.t is not TInt: raise Unsupported(f'range() of non-integers (line {s.lineno})')
+            tn = self.target_names(s.target)
+            self.oblige(st, f'loop {ordinal} inv-entry', INV(st, lo), s.lineno)
+            it = st.copy(); self.havoc(it, mod - tn, f'L{ordinal}')
+            i = TInt.fresh('idx'); it.pc += [i.term >= lo.term, i.term < hi.term, INV(it, i)]
+            it.env['$done' + ordinal] = i; self.bind_target(s.target, i, it.env)
+            finish(self.ex_block(s.body, it, path), lambda e_st: INV(e_st, Sym(TInt, i.term + 1)))
+            results.append((exit_state(lambda x: INV(x, Sym(TInt, If(hi.term > lo.term, hi.term, lo.term)))), 'normal')); return results
         coll, binder = self.loop_iter(s, st); t = coll.t; tn = self.target_names(s.target)
         if isinstance(t, TSeq):
             self.oblige(st, f'loop {ordinal} inv-entry', INV(st, Sym(TInt, IntVal(0))), s.lineno)
